@@ -87,6 +87,24 @@ TEMPLATES = [
 ]
 
 
+def keyword_faults():
+    """calls of functions with default parameter values that must be rejected: a keyword that names no parameter (alone, next
+    to positional arguments, with an ill-typed or undefined value), a keyword value of the wrong type, a parameter supplied
+    twice, a required parameter left out, too many arguments"""
+    sigs = [('kf', '(x: MachineInteger, factor: MachineInteger == 10, offs: MachineInteger == 0)', 'x * factor + offs',
+             ['kf(2, bogus == 1)', 'kf(2, 3, colour == "red")', 'kf(2, bogus == undefinedFunction(7))', 'kf(2, offs == "s")', 'kf(2, offs == undefinedThing)',
+              'kf(2, 3, 4, 5)', 'kf()', 'kf(offs == 1)', 'kf(2, factor == 1, factor == 2)', 'kf(2, 3, factor == 4)', 'kf(bogus == 2)', 'kf(2, 3, 4, bogus == 5)',
+              'kf(2, x == 3)', 'kf(2, Offs == 1)']),
+            ('kg', '(a: MachineInteger, b: MachineInteger == 2)', 'a + b', ['kg(1, c == 3)', 'kg(c == 3, a == 1)', 'kg(1, 2, 3)', 'kg(b == 1)', 'kg(1, b == true)']),
+            ('kh', '(s: String == "d")', '#s', ['kh(t == "x")', 'kh(s == 1)', 'kh("a", "b")', 'kh(s == "a", s == "b")'])]
+    out = []
+    for name, params, body, calls in sigs:
+        for i, c in enumerate(calls):
+            text = '%s%s: MachineInteger == { import from MachineInteger; %s };\nc0(): () == {\n\timport from MachineInteger;\n\tpIMI("K0:", %s);\n}\n' % (name, params, body, c)
+            out.append(('keyword-call:%s' % c.replace(' ', ''), text))
+    return out
+
+
 def main(tier):
     ck = Check(PID, 'exploration', tier)
     b = ck.build('aldor', 'foam', 'libaldor')
@@ -130,7 +148,7 @@ def main(tier):
     for f, c in bases:
         for kind, site, m in mutants(c):
             muts.append((kind, f, site, progspace.render_unit([m], 0)))
-    for kind, text in TEMPLATES:
+    for kind, text in TEMPLATES + keyword_faults():
         muts.append((kind, 'template', kind, progspace.PRELUDE + text.replace('@K@', '0') + ('c0();\n' if 'c@K@' in text else '')))
 
     chunks = [muts[i::NCPU * 2] for i in range(NCPU * 2)]
@@ -174,7 +192,7 @@ def main(tier):
                 ck.nontrivial((kind, f, site))
     ck.cov.update({
         'rule': 'accepted: all %d family cases compile without error; rejected: %d base programs x every eligible site x faults {wrong argument type, missing/extra argument, undeclared name, '
-                'wrong result type} + %d template faults (duplicate definition, assignment to constant, missing export, operation outside category, missing import, ...); '
+                'wrong result type} + %d template faults (duplicate definition, assignment to constant, missing export, operation outside category, missing import, ...) + 23 ill-formed calls of functions with default parameters (unknown keyword, parameter given twice, ...); '
                 'distinct = mutants rejected with a positioned error and no output file' % (len(cases), len(bases), len(TEMPLATES)),
         'accepted_cases': nacc, 'mutants': len(muts), 'rejected_by_kind': kinds,
         'samples': [muts[0][3][-400:], TEMPLATES[3][1]],
